@@ -735,8 +735,7 @@ class Judge:
             sizes = dict(op.get('layout') or [])
             offs = [(sizes[nm], off) for nm, off, _v in mc._pairs(op['args'], 3)
                     if nm in sizes]
-            cls = ('negative-offset' if any(off < 0 for _s, off in offs) else
-                   'offset-equals-size' if any(off == sz for sz, off in offs) else None)
+            cls = 'offset-equals-size' if any(off == sz for sz, off in offs) else None
             if cls:
                 wit['manifestation'] = key
                 key = f'C17/method/Synth.seti/control-outside-the-array-addressed/{cls}'
@@ -802,6 +801,16 @@ class Judge:
         method = rec['expect'].method
         if not msgs and getattr(rec['expect'], 'optional', False):
             return
+        alt = getattr(rec['expect'], 'alt_messages', None)
+        if alt is not None:
+            def same(want):
+                return len(want) == len(msgs) and all(
+                    mc.match_message(w, mm, _decode_blob) is None
+                    for w, mm in zip(want, msgs))
+            if not same(want_msgs) and same(alt):
+                # accepted alternative spelling: an observation, not a verdict
+                self.count(rec['expect'].alt_counter)
+                return
         if unordered:
             left = list(msgs)
             missing = []
